@@ -29,6 +29,9 @@ register('C03', 'TLA+ Api/Diff spec: compiled gradients/Jacobians of TLC-enumera
 register('C17', 'TLA+ Diff spec second derivatives (symmetry checked by TLC) as oracle for compute_hessian / compile_hessian',
          'For every enumerated program over <= 3 variables both Hessian APIs are executed for every permutation/superset variable list and compared, entry by entry and for symmetry, with the spec second derivatives at regular rational points.',
          API_NOTE, 'DESIGN.md 3 (C17)')
+register('C10', 'TLA+ Api spec: every comparison operand-kind pair enumerated by TLC; constraint semantics and solver-side functions captured at the minimize seam vs spec',
+         'TLC enumerates every comparison (lhs kind x rhs kind x sense x reflected) over the C10 signature; for each constraint evaluate / violation / is_satisfied are compared exactly at rational points, and one solve through a stubbed minimize seam captures type / fun / jac of every solver constraint, compared with the spec ScipyCon (fun >= 0 exactly on the satisfied set, jac = D fun).',
+         API_NOTE, 'DESIGN.md 3 (C10)')
 
 ALL = ['C%02d' % i for i in range(1, 21)]
 
